@@ -67,6 +67,10 @@ type instance struct {
 	order    *big.Int
 	pubInSk  [2]int // [from,to) of the public half inside the private key encoding, or {0,0}
 	hedged   func(sk []byte, rnd *core.Stream, msg []byte) ([]byte, error)
+	// newVerifier, if set, makes a verifier node that keeps one key object for its
+	// lifetime and loads every received key into it (per run; never shared across runs)
+	newVerifier func() func(pk, msg []byte, ctx string, sig []byte) bool
+	infPK, infSig []byte // encodings of the group identity as key and as signature, if the format has them
 }
 
 var l25519, _ = new(big.Int).SetString("7237005577332262213973186563042994240857116359379907606001950938285454250989", 10)
@@ -251,9 +255,20 @@ func blsInstance[K bls.KeyGroup](name string) *instance {
 		}
 		return bls.Verify(&pk, m, sg)
 	}
+	in.newVerifier = func() func(pk, msg []byte, ctx string, sig []byte) bool {
+		var pk bls.PublicKey[K] // one object, reloaded for every received key
+		return func(pkB, m []byte, c string, sg []byte) bool {
+			if pk.UnmarshalBinary(pkB) != nil {
+				return false
+			}
+			return bls.Verify(&pk, m, sg)
+		}
+	}
 	_, sk := in.derive(make([]byte, 32))
-	_, sf, _ := in.restore(sk)
+	pk0, sf, _ := in.restore(sk)
 	in.sigSize = len(sf([]byte("x"), ""))
+	inf := func(n int) []byte { b := make([]byte, n); b[0] = 0xc0; return b } // compressed point at infinity (ZCash format)
+	in.infPK, in.infSig = inf(len(pk0)), inf(in.sigSize)
 	return in
 }
 
@@ -274,7 +289,7 @@ func init() {
 	kinds = append(kinds, "BLS-G1", "BLS-G2")
 }
 
-var faults = []string{"", "sig-flip", "sig-trunc", "sig-append", "sig-SplusL", "sig-zeros", "sig-other", "msg-flip", "msg-extend", "msg-trunc", "ctx-alter", "ctx-256", "pk-other", "pk-flip", "pk-trunc", "pk-append", "mode", "stored-key", "hedged-short", "hedged-error"}
+var faults = []string{"", "sig-flip", "sig-trunc", "sig-append", "sig-SplusL", "sig-zeros", "sig-other", "msg-flip", "msg-extend", "msg-trunc", "ctx-alter", "ctx-256", "pk-other", "pk-flip", "pk-trunc", "pk-append", "mode", "stored-key", "hedged-short", "hedged-error", "ctx-allpos", "pk-infinity"}
 
 func gen(r *core.PRNG, tier string) any {
 	var w []int
@@ -296,7 +311,7 @@ func gen(r *core.PRNG, tier string) any {
 	}
 	for i := 0; i < n; i++ {
 		m := Msg{Len: r.EdgeLen(300, 0, 1, 64, 128, 136), Ctx: r.EdgeLen(255, 0, 1, 255), Rst: r.Chance(1, 4)}
-		m.Fault = faults[r.Pick(12, 22, 8, 6, 6, 2, 4, 6, 3, 3, 5, 2, 4, 5, 2, 2, 5, 5, 2, 2)]
+		m.Fault = faults[r.Pick(12, 22, 8, 6, 6, 2, 4, 6, 3, 3, 5, 2, 4, 5, 2, 2, 5, 5, 2, 2, 3, 3)]
 		m.Pos = r.Intn(1 << 20)
 		m.Val = r.Intn(256)
 		p.Msgs = append(p.Msgs, m)
@@ -315,6 +330,8 @@ func directed(tier string) []any {
 			p.Msgs = append(p.Msgs, Msg{Len: 33, Ctx: 3, Fault: f, Pos: 77, Val: 1})
 		}
 		out = append(out, p)
+		// the largest legal context, every position altered
+		out = append(out, &Plan{Kind: k, KeySeed: 7, Entropy: 8, Msgs: []Msg{{Len: 17, Ctx: 255, Fault: "ctx-allpos", Val: 3}, {Len: 0, Ctx: 254, Fault: "ctx-allpos", Val: 6}}})
 		// every single-bit flip and every truncation length of one signature per kind
 		in := instances[k]
 		chunk := 4096
@@ -380,6 +397,11 @@ func exec(planJSON []byte, run *core.Run) {
 		return ok, true
 	}
 
+	verify := in.verify
+	if in.newVerifier != nil && p.KeySeed%2 == 1 {
+		verify = in.newVerifier()
+		run.Fault("history:verifier-key-object-reused")
+	}
 	var prevSig, prevMsg []byte
 	for i, m := range p.Msgs {
 		if m.Len < 0 || m.Len > 5000 || m.Ctx < 0 || m.Ctx > 255 {
@@ -415,7 +437,7 @@ func exec(planJSON []byte, run *core.Run) {
 			run.Violate(comp+".Sign", "deterministic-scheme-not-deterministic", "message %d: original signer %s, restored signer %s", i, sh(sig), sh(sig2))
 			return
 		}
-		ok, fine := safeVerify(in.verify, "honest", pkB, msg, ctx, sig)
+		ok, fine := safeVerify(verify, "honest", pkB, msg, ctx, sig)
 		if !fine {
 			return
 		}
@@ -425,7 +447,7 @@ func exec(planJSON []byte, run *core.Run) {
 		}
 		// --- one fault on the way to the verifier ---
 		vpk, vmsg, vctx, vsig := append([]byte{}, pkB...), append([]byte{}, msg...), ctx, append([]byte{}, sig...)
-		vf := in.verify
+		vf := verify
 		what := m.Fault
 		applied := true
 		switch m.Fault {
@@ -452,7 +474,7 @@ func exec(planJSON []byte, run *core.Run) {
 				} else {
 					t = t[:b]
 				}
-				ok, fine := safeVerify(in.verify, m.Fault, pkB, msg, ctx, t)
+				ok, fine := safeVerify(verify, m.Fault, pkB, msg, ctx, t)
 				if !fine {
 					return
 				}
@@ -539,6 +561,37 @@ func exec(planJSON []byte, run *core.Run) {
 			if in.ctxMust && vctx == "" {
 				applied = false
 			}
+		case "ctx-allpos":
+			// fault enumeration: every position of the context altered in turn (one bit each)
+			if !in.ctxOK || len(ctx) == 0 {
+				applied = false
+				break
+			}
+			for j := 0; j < len(ctx); j++ {
+				b := []byte(ctx)
+				b[j] ^= 1 << (uint(m.Val+j) % 8)
+				ok, fine := safeVerify(verify, m.Fault, pkB, msg, string(b), sig)
+				if !fine {
+					return
+				}
+				if ok {
+					run.Violate(comp+".Verify", "accepts-ctx-allpos", "message %d: byte %d of the %d-byte context altered and verification still returns true", i, j, len(ctx))
+					return
+				}
+			}
+			run.Faults["transport:ctx-allpos"] += len(ctx)
+			run.NonTrivial = true
+			run.T(m.Fault, fmt.Sprint(len(ctx)))
+			prevSig, prevMsg = sig, msg
+			continue
+		case "pk-infinity":
+			// the identity as key together with the identity as signature satisfies the
+			// pairing equation for every message; the verifier must refuse the key
+			if in.infPK == nil {
+				applied = false
+				break
+			}
+			vpk, vsig = append([]byte{}, in.infPK...), append([]byte{}, in.infSig...)
 		case "ctx-256":
 			if !in.ctxOK {
 				applied = false
@@ -594,7 +647,7 @@ func exec(planJSON []byte, run *core.Run) {
 			if pan {
 				continue // refusing to sign with an inconsistent key is fine
 			}
-			okBad, fine := safeVerify(in.verify, "stored-key", pubBad, msg, ctx, sigBad)
+			okBad, fine := safeVerify(verify, "stored-key", pubBad, msg, ctx, sigBad)
 			if !fine {
 				return
 			}
@@ -629,7 +682,7 @@ func exec(planJSON []byte, run *core.Run) {
 			if herr != nil {
 				continue // an error is an acceptable outcome
 			}
-			hok, fine := safeVerify(in.verify, "hedged", pkB, msg, "", hs)
+			hok, fine := safeVerify(verify, "hedged", pkB, msg, "", hs)
 			if !fine {
 				return
 			}
